@@ -20,8 +20,11 @@ Mirrors, from `/repo` **with `fixes/C20-kind-change.patch` applied**:
   in two parameters only: `slot` (the supervisor keeps one `sync.Map`; the traffic controller keeps
   `pipelines` for kind `Pipeline` and `trafficGates` for every other kind) and `createChecks`
   (the supervisor refuses to create a name that is already stored; `CreatePipeline /
-  CreateTrafficGate` overwrite). The traffic controller's namespace bookkeeping is abstracted:
-  "namespace not found" and "object not found" are the same no-op.
+  CreateTrafficGate` overwrite), plus `namespaced`: the traffic controller keeps its two maps inside
+  `tc.namespaces[DefaultNamespace]`, which `Create*` creates on demand, `Update* / Delete*` require
+  ("namespace %s not found"), and `_cleanSpace` (after every delete) removes — with everything in
+  it — when its two emptiness probes (`trafficGates`, then `pipelines`) both find nothing
+  (`CState.ns`, `cleanSpace`).
 * `Spec.Equals` — equality of kind and body (the name is the map key; `reflect.DeepEqual` of the raw
   specs is trusted).
 
@@ -92,6 +95,9 @@ structure Params where
   slot : Kind → Nat
   /-- `Supervisor.handleEvent` checks "already existed" before creating -/
   createChecks : Bool
+  /-- the consumer keeps its maps inside a namespace object that is created on demand and removed
+  by `_cleanSpace` (traffic controller); `false` for the supervisor -/
+  namespaced : Bool
   /-- which lifecycle callbacks panic -/
   panics : Op → Name → Entity → Bool
   /-- iteration order of `range event.X` (step, loop id, map) -/
@@ -169,31 +175,49 @@ def callClose (P : Params) (n : Name) (e : Entity) : Call :=
 
 /-! ### consumers: `handleEvent` -/
 
-/-- Consumer state: the `sync.Map`s keyed by (slot, name), and the calls made so far. -/
+/-- Consumer state: the `sync.Map`s keyed by (slot, name), the calls made so far, and whether the
+namespace object holding the maps exists (`tc.namespaces[DefaultNamespace]`; meaningless for the
+supervisor). Slot 0 = `pipelines`, slot 1 = `trafficGates`. -/
 structure CState where
   store : Map (Nat × Name) Entity
   log : List Call
+  ns : Bool
 deriving Repr
 
-/-- `for name := range event.Delete`: `LoadAndDelete`, `CloseWithRecovery`. -/
-def delStep (P : Params) (c : CState) (x : Name × Entity) : CState :=
-  let key := (P.slot x.2.kind, x.1)
-  match c.store.get key with
-  | none => c                                   -- "BUG: delete %s not found" / "… not found" error
-  | some old => { store := c.store.del key, log := c.log ++ [callClose P x.1 old] }
+/-- `TrafficController._cleanSpace`: probe `trafficGates`, probe `pipelines`; if both are empty
+`delete(tc.namespaces, namespace)` — the namespace object goes away with whatever it holds. -/
+def cleanSpace (c : CState) : CState :=
+  let serverLen := (c.store.filter (fun e => e.1.1 == 1)).length
+  let pipelineLen := (c.store.filter (fun e => e.1.1 == 0)).length
+  if serverLen + pipelineLen == 0 then { store := [], log := c.log, ns := false } else c
 
-/-- `for name, entity := range event.Create`: `InitWithRecovery`, `Store`. -/
+/-- `for name := range event.Delete`: `LoadAndDelete`, `CloseWithRecovery` (+ `_cleanSpace`). -/
+def delStep (P : Params) (c : CState) (x : Name × Entity) : CState :=
+  if P.namespaced && !c.ns then c               -- "namespace %s not found"
+  else
+    let key := (P.slot x.2.kind, x.1)
+    match c.store.get key with
+    | none => c                                 -- "BUG: delete %s not found" / "… not found" error
+    | some old =>
+      let c' : CState := { store := c.store.del key, log := c.log ++ [callClose P x.1 old], ns := c.ns }
+      if P.namespaced then cleanSpace c' else c'
+
+/-- `for name, entity := range event.Create`: `InitWithRecovery`, `Store` (the namespace is created
+on demand). -/
 def creStep (P : Params) (c : CState) (x : Name × Entity) : CState :=
   let key := (P.slot x.2.kind, x.1)
   if P.createChecks && (c.store.get key).isSome then c   -- "BUG: create %s already existed"
-  else { store := c.store.set key x.2, log := c.log ++ [callInit P x.1 x.2] }
+  else { store := c.store.set key x.2, log := c.log ++ [callInit P x.1 x.2],
+         ns := if P.namespaced then true else c.ns }
 
 /-- `for name, entity := range event.Update`: `Load`, `InheritWithRecovery`, `Store`. -/
 def updStep (P : Params) (c : CState) (x : Name × Entity) : CState :=
-  let key := (P.slot x.2.kind, x.1)
-  match c.store.get key with
-  | none => c                                   -- "BUG: update %s not found"
-  | some prev => { store := c.store.set key x.2, log := c.log ++ [callInherit P x.1 x.2 prev] }
+  if P.namespaced && !c.ns then c               -- "namespace %s not found"
+  else
+    let key := (P.slot x.2.kind, x.1)
+    match c.store.get key with
+    | none => c                                 -- "BUG: update %s not found"
+    | some prev => { store := c.store.set key x.2, log := c.log ++ [callInherit P x.1 x.2 prev], ns := c.ns }
 
 /-- `handleEvent` at step `t` (the step only feeds the iteration-order oracle). -/
 def handleEvent (P : Params) (t : Nat) (c : CState) (ev : Event) : CState :=
@@ -224,7 +248,7 @@ structure Sys where
   w : WState
 deriving Repr
 
-def Sys.init : Sys := ⟨0, 0, [], ⟨false, [], ⟨[], []⟩⟩⟩
+def Sys.init : Sys := ⟨0, 0, [], ⟨false, [], ⟨[], [], false⟩⟩⟩
 
 /-- `NewWatcher`: the first event creates every entity that passes the filter. -/
 def attachEvent (P : Params) (ents : Map Name Entity) : Event :=
